@@ -95,9 +95,13 @@ def udpOp (u : USt) (op : String) : Option USt :=
   | _ => none
 
 def udpRun (ops : List String) : Option USt :=
+  -- a leading `v6` puts every socket of the world on IPv6 loopback
+  let (w0, ops) : World × List String := match ops with
+    | "v6" :: rest => (init true, rest)
+    | _ => (init false, ops)
   ops.foldl (fun acc op => match acc with
     | some u => if op = "" then none else udpOp u op
-    | none => none) (some {})
+    | none => none) (some { w := w0 })
 
 def showGroups (w : World) : List String :=
   (List.range w.socks.length).flatMap (fun r =>
